@@ -109,13 +109,14 @@ def intervals(codes):
     return [(a, b) for a, b in out]
 
 
-def build_harness(ck):
+def build_harness(ck, ndebug=True):
     vis = os.path.join(REPO, 'solvers', 'visitor')
     srcs = [os.path.join(vis, f) for f in ['visitorbackend.cc', 'visitorcommon.cc', 'visitormodelapi.cc',
                                             'visitor-modelapi-connect.cc', 'model-mgr-with-std-pb.cc']]
     srcs.append(os.path.join(VERIF, 'harness', 'h_status.cc'))
-    objs = ck.objects(srcs, flags=['-O0', '-DNDEBUG'], extra_inc=[vis, os.path.join(BUILD, 'gen')], tag='c10')
-    return ck.link('h_status', objs + ck.libmp_objects())
+    objs = ck.objects(srcs, flags=['-O0'] + (['-DNDEBUG'] if ndebug else []), extra_inc=[vis, os.path.join(BUILD, 'gen')],
+                      tag='c10' if ndebug else 'c10dbg')
+    return ck.link('h_status' if ndebug else 'h_status_dbg', objs + ck.libmp_objects())
 
 
 def run_lines(cmd, inp=None, cwd=None):
@@ -150,7 +151,7 @@ def run(ck):
                        os.path.join(BUILD, 'tr'), inc], timeout=600)
     ck.log((out.strip() or err.strip())[-600:])
     translator_ok = rc == 0
-    N_THEOREMS = 27
+    N_THEOREMS = 21     # the full-strength set; the unchanged tree has 28 (partial + counterexample theorems)
     proof_ok, failing = False, []
     if translator_ok:
         proof_ok, failing = ck.proof_stage('MpVerif.C10.Props', 'MpVerif/C10/Props.lean', 'C10_',
@@ -249,7 +250,7 @@ def run(ck):
             want = (c != -200) if p == 'IsSolStatusRetrieved' else (k in PRED_MEANS[p])
             if bool(b) != want:
                 pred_fail.setdefault((p, 'false-negative' if want else 'false-positive'), []).append(c)
-        if i % 283 == 99:
+        if i % 283 == 99 and len(ck.cov['samples']) < 4:
             ck.sample(l)
     for (p, kind), cs in sorted(pred_fail.items()):
         for a, b in intervals(cs):
@@ -329,7 +330,7 @@ def run(ck):
     all_codes = list(range(-200, 1000))
     for mi, (mn, mopts) in enumerate(models):
         nobjs = (0, 1) if mi == 0 else (1,)
-        cs = all_codes if mi <= 1 else sorted(set([-200, -1, 0, 99, 100, 150, 199, 200, 299, 300, 349, 350, 399, 400, 449, 450, 469, 470, 499, 500, 550, 999]
+        cs = all_codes if (mi <= 1 or not quick) else sorted(set([-200, -1, 0, 99, 100, 150, 199, 200, 299, 300, 349, 350, 399, 400, 449, 450, 469, 470, 499, 500, 550, 999]
                                                    + [rnd.randint(-200, 999) for _ in range(150)]))
         cs = cs + ([] if quick else [-1000, -201, 1000, 5000, 2 ** 31 - 1, -2 ** 31])
         ops = ['%d %d %d %d' % (c, n, p, d) for c in cs for n in nobjs for p in (0, 1) for d in (0, 1)]
@@ -402,6 +403,32 @@ def run(ck):
                               'replay': 'build harness/h_status.cc (checks/c10.py:build_harness); echo "%d %d %d %d" | h_status report corpus/C10/%s %s; inspect %s.sol' % (a, n, p, d, mn, ' '.join(mopts), mn)},
                              found_input=True)
 
+    # ------------------------------------------------------------ thorough: the same with assertions enabled
+    if not quick:
+        exe_dbg = build_harness(ck, ndebug=False)
+        rc, lines, err = run_lines([exe_dbg, 'pred', '-199', '999'])
+        dbg = [l for l in lines if l.startswith('pred ')]
+        ref = [l for l in pred_impl if -199 <= int(l.split(' ')[1]) <= 999][:1199]
+        if rc != 0 or dbg != ref:
+            bad = next((a for a, b in zip(dbg, ref) if a != b), None)
+            ck.add_violation('pred:assert-build-differs', 'build without NDEBUG: exit %d, first differing line %s: %s' % (rc, bad, err[-300:]),
+                             {'cmd': '%s pred -199 999' % exe_dbg}, found_input=bad is not None)
+        d = os.path.join(work, 'dbg')
+        shutil.rmtree(d, ignore_errors=True)
+        os.makedirs(d)
+        shutil.copy(os.path.join(VERIF, 'corpus', 'C10', 'tiny.nl'), os.path.join(d, 'm.nl'))
+        ops = ['%d 1 %d %d' % (c, c % 2, (c // 2) % 2) for c in range(-199, 1000)]
+        p = subprocess.run([exe_dbg, 'report', os.path.join(d, 'm')], input='\n'.join(ops) + '\n', capture_output=True, text=True, cwd=d)
+        dl = [canon_report(l)[1] for l in p.stdout.split('\n') if l.startswith('report ')]
+        mm = model([x.split(' | ')[0] for x in dl if x])
+        corr['report_assert_build'] = len(dl)
+        if p.returncode != 0 or len(dl) != len(ops):
+            ck.add_violation('report:assert-build-aborts', 'driver built without NDEBUG stopped after %d of %d runs (exit %d): %s' % (len(dl), len(ops), p.returncode, p.stderr[-300:]),
+                             {'first_missing': ops[len(dl)] if len(dl) < len(ops) else None}, found_input=True)
+        elif mm is not None and mm != dl:
+            i = next(i for i in range(len(dl)) if i >= len(mm) or mm[i] != dl[i])
+            disagree('report', dl[i].split(' | ')[0] + ' (assert build)', dl[i], mm[i] if i < len(mm) else None)
+
     # ------------------------------------------------------------ verdicts for correspondence / obligations
     for stream, lst in corr_bad.items():
         op, impl, mdl = lst[0]
@@ -423,7 +450,7 @@ def run(ck):
                               'searched': 'all codes -200..999 (+%d others) on the compiled predicates, %d complete driver runs: none violates the documented behaviour beyond the known findings' % (len(extra), corr['report'])},
                              found_input=False)
 
-    n_eval = corr['enum'] + corr['pred'] + corr['table'] + corr['report']
+    n_eval = corr['enum'] + corr['pred'] + corr['table'] + corr['report'] + corr.get('report_assert_build', 0)
     ck.cov['evaluations'] = n_eval
     ck.cov['distinct_nontrivial'] = len(distinct) + len(set(codes))
     ck.cov['rule'] = ('distinct (model, options, solve code, #objective values after postsolve, primal present, dual present) complete driver runs '
